@@ -43,10 +43,16 @@ def _apply_cookies(resp, cookies):
 
 
 def small_defaults(kind):
-    return {"text": "text/plain", "bytes": "text/plain", "html": "text/html", "json": "application/json"}[kind]
+    return {"text": "text/plain", "bytes": "text/plain", "html": "text/html", "json": "application/json", "jsonp": "application/json"}[kind]
+
+
+# "jsonp": JSONResponse given json.dumps options of its own (they belong to that one response object)
+JSONP_KWARGS = {"indent": 2, "sort_keys": True, "ensure_ascii": True}
 
 
 def render_small(kind, content, charset):
+    if kind == "jsonp":
+        return json.dumps(content, allow_nan=False, separators=(",", ":"), **JSONP_KWARGS).encode(charset)
     if kind == "json":
         return json.dumps(content, ensure_ascii=False, allow_nan=False, indent=None, separators=(",", ":")).encode(charset)
     if isinstance(content, str):
@@ -66,10 +72,11 @@ def build(recipe, iface):
         r = M.Response(status, dict(map(tuple, headers)) if headers else None)
     elif kind == "small":
         _, k, content, status, headers, cookies, media, charset = recipe
-        cls = {"text": M.PlainTextResponse, "bytes": M.PlainTextResponse, "html": M.HTMLResponse, "json": M.JSONResponse}[k]
+        cls = {"text": M.PlainTextResponse, "bytes": M.PlainTextResponse, "html": M.HTMLResponse, "json": M.JSONResponse,
+               "jsonp": M.JSONResponse}[k]
         hd = dict(map(tuple, headers)) if headers else None
-        if k == "json":
-            r = cls(content, status, hd)
+        if k in ("json", "jsonp"):
+            r = cls(content, status, hd, **(JSONP_KWARGS if k == "jsonp" else {}))
             if media:
                 r.media_type = media
             if charset:
